@@ -91,12 +91,25 @@ fn child_typed<T: serde::Serialize + serde::de::DeserializeOwned + Send>(c: &C, 
     for k in super::common::permutation4(c.border) {
         b = match k {
             0 => b.with_chunk_size(c.c),
-            1 => b.num_threads(2),
+            // fail == 4: a worker pool that cannot be built (usize::MAX threads under an address-space limit)
+            1 => b.num_threads(if c.fail == 4 { usize::MAX } else { 2 }),
             2 => if let Some(l) = c.comp { b.with_compression(l) } else { b },
             _ => if c.tmp == 1 { b.with_tmp_dir(&d) } else { b },
         };
     }
-    let sorter = match b.build() { Ok(s) => s, Err(_) => return "abort".into() };
+    if c.fail == 4 {
+        unsafe { let lim = libc::rlimit { rlim_cur: 3 << 30, rlim_max: 3 << 30 }; libc::setrlimit(libc::RLIMIT_AS, &lim); }
+    }
+    let built = b.build();
+    if c.fail == 4 {
+        // build() is expected to fail (thread spawning runs into the limit); whether it fails or not, once its
+        // result is dropped both directories must be as they were
+        let code = if built.is_ok() { 5 } else { 4 };
+        drop(built);
+        let fin = listing(&d);
+        return format!("{} 0 0 0 0 0 0 {} {} {} {} 0 0 0", base0.len(), fin.difference(&base0).count(), base0.difference(&fin).count(), count_recursive(&other).abs_diff(other0), code);
+    }
+    let sorter = match built { Ok(s) => s, Err(_) => return "abort".into() };
     let after_build = listing(&d);
     let new1: Vec<&(String, bool)> = after_build.difference(&base0).collect();
     let new_dirs = new1.iter().filter(|x| x.1).count();
@@ -200,6 +213,11 @@ fn gen(rng: &mut Rng, tier: Tier) -> Vec<Case> {
     }
     // records that own heap data: runs of 1-12 MiB on disk (a threshold on the in-memory or on-disk size of a
     // run is invisible to kilobyte-sized sorts)
+    // build() itself fails: nothing may be left behind either
+    for i in 0..(match tier { Tier::Quick => 2, Tier::Thorough => 6 }) {
+        let c = C { tmp: (i % 2) as u64, n: 4, c: 2, comp: None, fail: 4, fail_at: 0, consume: 0, order: 0, obs_at: 0, border: rng.below(24), heavy: 0 };
+        out.push(Case::new("build-fails", enc(&c)));
+    }
     let n_heavy = match tier { Tier::Quick => 3, Tier::Thorough => 16 };
     for i in 0..n_heavy {
         let heavy = *rng.pick(&[512usize, 2048, 3000]);
@@ -215,7 +233,7 @@ fn gen(rng: &mut Rng, tier: Tier) -> Vec<Case> {
 pub fn prop() -> PropDef {
     PropDef {
         id: "C15",
-        rule: "corpus, then lifetime scripts run in a child process whose TMPDIR is a fresh directory: explicit or default tmp dir (both pre-populated with a file and a sub-directory), the builder's four setters called in every order, inputs of c+1..8c records for chunk sizes c in {1,2,3,10,50}, with or without compression; the input iterator snapshots the directory (and /proc/self/fd) after at least one chunk exists; then either a normal sort followed by draining / dropping after k items / never consuming, with the iterator dropped before or after the sorter, or a panic raised by the input iterator at item j, a panic raised by the comparator at its m-th call, or sort_by returning an error (descriptor limit lowered mid-sort); listing compared before build, after build, during the sort and after the drops; /proc/self/fd compared before build, during the sort and when sort_by has returned; a few sorts of records owning heap data (0.5-3 KiB strings, runs of 1-12 MiB). Non-trivial: the during-snapshot was taken with >= 1 chunk created. Distinct = distinct input token sequence.",
+        rule: "corpus, then lifetime scripts run in a child process whose TMPDIR is a fresh directory: explicit or default tmp dir (both pre-populated with a file and a sub-directory), the builder's four setters called in every order, inputs of c+1..8c records for chunk sizes c in {1,2,3,10,50}, with or without compression; the input iterator snapshots the directory (and /proc/self/fd) after at least one chunk exists; then either a normal sort followed by draining / dropping after k items / never consuming, with the iterator dropped before or after the sorter, or a panic raised by the input iterator at item j, a panic raised by the comparator at its m-th call, or sort_by returning an error (descriptor limit lowered mid-sort); listing compared before build, after build, during the sort and after the drops; /proc/self/fd compared before build, during the sort and when sort_by has returned; a few sorts of records owning heap data (0.5-3 KiB strings, runs of 1-12 MiB); a build() that fails (usize::MAX worker threads under a 3 GiB address-space limit). Non-trivial: the during-snapshot was taken with >= 1 chunk created. Distinct = distinct input token sequence.",
         observable: "entries created under the configured directory by build(), during sort_by (top level, inside the temporary directory), after the drops (new and missing entries), entries created under the other temporary directory, descriptors opened during the sort on files (linked or already unlinked) outside the configured directory, result of sort_by",
         gen, exec, shrink, child: Some(child),
     }
